@@ -2,6 +2,7 @@ SPECIFICATION Spec
 CONSTANT Part = "scale"
 CONSTANT Deviation = "TimesTau"
 CONSTANT MaxDepth = 3
+CONSTANT Rebounds = FALSE
 CONSTANT Export = FALSE
 INVARIANT C05_Rescale
 CHECK_DEADLOCK FALSE
